@@ -8,6 +8,7 @@ import (
 	"os"
 	"path/filepath"
 	"regexp"
+	"runtime"
 	"runtime/debug"
 	"sort"
 	"strings"
@@ -255,6 +256,11 @@ type Evidence struct {
 }
 
 func main() {
+	// type checking + SSA construction scale poorly (kernel futex contention was measured
+	// at 16 threads in this sandbox: 65 s vs 8 s); the solvers run as separate processes.
+	if os.Getenv("GOVC_PROCS") == "" {
+		runtime.GOMAXPROCS(2)
+	}
 	if len(os.Args) < 2 {
 		fmt.Fprintln(os.Stderr, "usage: govc check|dump ...")
 		os.Exit(2)
